@@ -59,6 +59,14 @@ def programs():
     brk("near-threshold failure||state", [("failure", "T")], [[("failure", "T")], [("state",)]], BRK)
     brk("open-not-due allow||failure", [("failure", "T"), ("tick", 1)],
         [[("allow",)], [("failure", "T")]])
+    # the probe's success closes the circuit while another thread is already waiting for the
+    # lock, and the closing thread goes straight on to its next operation
+    brk("probe [success;failure]||failure", half_probe,
+        [[("success",), ("failure", "T")], [("failure", "T")]])
+    brk("probe(thr 2) [success;failure]||failure", [("failure", "T")] + half_probe,
+        [[("success",), ("failure", "T")], [("failure", "T")]], BRK)
+    brk("probe [success;allow]||failure", half_probe,
+        [[("success",), ("allow",)], [("failure", "T")]])
     b2 = {"max": 2, "window": 4}
     bud("one-left consume||consume", b2, [("consume", 1)], [[("consume", 1)], [("consume", 1)]])
     bud("consume2||consume1", b2, [], [[("consume", 2)], [("consume", 1)]])
